@@ -100,6 +100,8 @@ class RealRun:
         self.nt_shield_pending = False
         self.nt_shield_failed = False
         self.nt_wait_failed = False
+        self.nt_wait_cancelled = False
+        self.d29_shape = False
         self.cross_task_cancel = False
         self.sids = scope_ids(program)
         self.marks: list[tuple[int, float, str]] = []  # (mark id, virtual time, task name)
@@ -151,6 +153,24 @@ class RealRun:
         try:
             if op == "cp":
                 await self.backend.coro_yield()
+            elif len(node) > 2 and node[2] == "cancelled" and node[1] > 0 and tc.shield:
+                # inside ignore_cancellation(): wait on a future that ends up *cancelled* (e.g. joining a task that somebody
+                # cancelled); the program handles that CancelledError on the spot - inside a shield it cannot be the task's
+                # own cancellation.  For the reference semantics this is a plain sleep.
+                fut = self.loop.create_future()
+                handle = self.loop.call_later(secs(node[1]), lambda: fut.done() or fut.cancel())
+                try:
+                    await fut
+                except asyncio.CancelledError:
+                    if not fut.cancelled():
+                        raise
+                    self.nt_wait_cancelled = True
+                    if self.foreign_pending(tc):
+                        # shape of known finding D29: a foreign cancel was absorbed by the shield, and the awaited future
+                        # then ends cancelled - cancel_shielded_await forgets the postponed cancellation in that case
+                        self.d29_shape = True
+                finally:
+                    handle.cancel()
             elif len(node) > 2 and node[2] == "fail" and node[1] > 0:
                 # same timer structure as asyncio.sleep(), but the awaited future ends with an application error that
                 # the program handles on the spot (for the reference semantics this is a plain sleep)
@@ -530,6 +550,7 @@ from ..core import Check, Layer, Outcome  # noqa: E402
 # class instead of being judged, so that the search continues past it.  A case carrying "no_exclude": true (the
 # saved replays of the findings) is always judged.  VERIF_C13_NO_EXCLUDE=D5,D6 switches the exclusion off for a run.
 EXCLUDE_D5 = True  # a foreign task.cancel() and a hosted scope's own cancellation pending on one task together
+EXCLUDE_D29 = True  # a foreign task.cancel() postponed by ignore_cancellation() is forgotten when the awaited future ends cancelled
 EXCLUDE_D6 = False  # repaired in /repo (86899fe): the shape is searched again; a scope cancelled while its host task is suspended exits without a CancelledError passing it
 
 _off = {x.strip().upper() for x in (os.environ.get("VERIF_C13_NO_EXCLUDE") or "").split(",") if x.strip()}
@@ -537,6 +558,8 @@ if "D5" in _off:
     EXCLUDE_D5 = False
 if "D6" in _off:
     EXCLUDE_D6 = False
+if "D29" in _off:
+    EXCLUDE_D29 = False
 
 D5_KINDS = frozenset({"foreign-cancel-not-delivered", "external-cancel-lost"})
 
@@ -677,6 +700,13 @@ def _run(case: dict, exact_layer: bool) -> Outcome:
             classes.append("excluded-D5" if model.d5_shape else "excluded-D5-signature-only")
     if d6:
         classes.append("shape-D6")
+    d29 = bool(real.d29_shape)
+    if d29:
+        classes.append("shape-D29")
+        if EXCLUDE_D29 and not judged_anyway:
+            waived |= D5_KINDS
+            skip_exact = True
+            classes.append("excluded-D29")
 
     _check_shields(real)
     # "after a scope exits the task carries no leftover cancellation request": once the outermost scope has exited,
@@ -705,6 +735,7 @@ def _run(case: dict, exact_layer: bool) -> Outcome:
             observed=real.summary(),
             shape_d5=d5,
             shape_d6=d6,
+            shape_d29=d29,
         )
 
     if model.exact() and model.d5_shape != _real_sig_d5(real):
@@ -754,6 +785,8 @@ def _run(case: dict, exact_layer: bool) -> Outcome:
         classes.append("shielded-body-raised")
     if real.nt_wait_failed:
         classes.append("awaited-future-failed")
+    if real.nt_wait_cancelled:
+        classes.append("awaited-future-cancelled-inside-shield")
     if real.nt_shield_pending:
         classes.append("shield-with-pending-cancel")
     if scope_model.count_ops(program, "resched"):
@@ -809,8 +842,10 @@ class _Gen:
         self.timer_no = 0
 
     def fail_flag(self) -> list:
-        """1 in 4 timed waits is a wait on a future that ends with an error handled by the program"""
-        return ["fail"] if self.draw(st.integers(0, 3)) == 0 else []
+        """1 in 4 timed waits is a wait on a future that ends with an error handled by the program (or, 1 in 8, that ends
+        up cancelled - only acted upon inside a shield, see _checkpoint)"""
+        r = self.draw(st.integers(0, 7))
+        return ["fail"] if r in (0, 1) else (["cancelled"] if r == 2 else [])
 
     def shield_flag(self) -> list:
         """1 in 3 shielded bodies ends by raising an error that the program catches around ignore_cancellation()"""
